@@ -269,12 +269,16 @@ NameOpt(S) == {NoName} \cup {N(b) : b \in S}
 \* every graph mutation goes through add_edge / remove_node, which reset the hash memo
 Mutated(s2) == st' = s2 /\ hm' = Dirty /\ UNCHANGED <<gc, sc>>
 
-Add(o, gn, nn, p) ==
-    LET a == AddOne(st, o, gn, nn, p, Xnow)
-    IN /\ "add" \in Ops /\ a.ok
+\* kx: the caller passes the transform the named node already has (add_edge then takes its
+\* "nothing changed" early return and SceneGraph.update alone attaches the geometry)
+KeepX(v, p) == v \in DOMAIN st.par /\ st.par[v] = (IF p = NoName THEN World ELSE p)
+Add(o, gn, nn, p, kx) ==
+    LET x == IF kx THEN st.off[nn] ELSE Xnow
+        a == AddOne(st, o, gn, nn, p, x)
+    IN /\ "add" \in Ops /\ (kx => KeepX(nn, p)) /\ a.ok
        /\ Mutated(a.s)
        /\ last' = [op |-> "add", objs |-> <<o>>, rets |-> <<a.ret>>, nn |-> nn]
-       /\ Log([op |-> "add", o |-> o, gn |-> Render(gn), nn |-> Render(nn), p |-> Render(p), x |-> Xnow,
+       /\ Log([op |-> "add", o |-> o, gn |-> Render(gn), nn |-> Render(nn), p |-> Render(p), x |-> x,
                ret |-> Render(a.ret), st |-> StJ(a.s), reaim |-> a.dev])
 
 AddList(os, gn, nn, p) ==
@@ -313,13 +317,14 @@ DeleteAct(S) ==
        /\ Log([op |-> "delete", names |-> Rs(S), st |-> StJ(s2)])
 
 \* scene.graph.update(v, frame_from = p, matrix = T(x), geometry = g): one more instance of g
-Instance(v, g, p) ==
+Instance(v, g, p, kx) ==
     LET u == IF p = NoName THEN World ELSE p
-        s2 == GUpdate(st, u, v, Xnow, g)
-    IN /\ "instance" \in Ops /\ UpdOK(st, u, v)
+        x == IF kx THEN st.off[v] ELSE Xnow
+        s2 == GUpdate(st, u, v, x, g)
+    IN /\ "instance" \in Ops /\ (kx => KeepX(v, p)) /\ UpdOK(st, u, v)
        /\ Mutated(s2)
        /\ last' = [op |-> "instance"]
-       /\ Log([op |-> "instance", v |-> Render(v), g |-> Render(g), p |-> Render(p), x |-> Xnow, st |-> StJ(s2)])
+       /\ Log([op |-> "instance", v |-> Render(v), g |-> Render(g), p |-> Render(p), x |-> x, st |-> StJ(s2)])
 
 RemoveNodeAct(v) ==
     LET s2 == RemoveNode(st, v)
@@ -379,14 +384,14 @@ Strip ==
 Pairs(S) == {T \in SUBSET S : Cardinality(T) = 2}
 Next ==
     /\ Len(hist) < MaxDepth
-    /\ \/ \E o \in Objs, gn \in NameOpt(GNames), nn \in NameOpt(NNames), p \in Parents : Add(o, gn, nn, p)
+    /\ \/ \E o \in Objs, gn \in NameOpt(GNames), nn \in NameOpt(NNames), p \in Parents, kx \in BOOLEAN : Add(o, gn, nn, p, kx)
        \/ \E os \in Lists, gn \in NameOpt(GNames), nn \in NameOpt(NNames) : AddList(os, gn, nn, NoName)
        \/ \E d \in Dicts : AddDict(d)
        \/ \E k \in Recipes : AddSceneAct(k)
        \/ \E n \in GeoNames(st) : DeleteAct({n})
        \/ \E T \in Pairs(GeoNames(st)) : "delete2" \in Ops /\ DeleteAct(T)
        \/ \E v \in {N(b) : b \in NNames} \cup (st.nodes \ {World}), g \in GeoNames(st),
-             p \in (IF ParentMode = "all" THEN Parents ELSE {NoName}) : Instance(v, g, p)
+             p \in (IF ParentMode = "all" THEN Parents ELSE {NoName}), kx \in BOOLEAN : Instance(v, g, p, kx)
        \/ \E v \in st.nodes \ {World} : RemoveNodeAct(v)
        \/ ReadGraph
        \/ ReadScene
